@@ -215,6 +215,8 @@ class AbstractContainer(abstract.GeomdlBase):
             raise ValueError("Evaluation delta should be between 0.0 and 1.0. You are trying to set it to " + str(value)
                              + " for the " + str(idx + 1) + "st parametric dimension.")
         self._delta[idx] = float(value)
+        # Reset the cache (also for the per-direction setters)
+        self.reset()
 
     @property
     def sample_size(self):
@@ -268,6 +270,8 @@ class AbstractContainer(abstract.GeomdlBase):
         if value < 2:
             raise GeomdlException("Sample size must be an integer value bigger than 2")
         self._delta[idx] = 1.0 / float(value - 1)
+        # Reset the cache (also for the per-direction setters)
+        self.reset()
 
     @property
     def data(self):
